@@ -3,8 +3,8 @@
    The work-list of queued_load over abstract resolution (resolve), enqueued items (pushes) and
    yielded blocks (blocks): the theorems hold for every loader composition, every file tree and
    every include graph; Model/Load.v instantiates them on a file system with include directives. *)
-From PdV.Model Require Import Load.
-From PdV Require Import LoadProofs.
+From PdV.Model Require Import Path Load.
+From PdV Require Import LoadProofs FsLoadProofs.
 
 (* termination, with an explicit fuel bound: stack length + the pushes still pending from
    unvisited locations of a finite universe *)
@@ -73,7 +73,9 @@ Theorem C16_repeat_reported :
 Proof. exact load_dups_reported. Qed.
 Print Assumptions C16_repeat_reported.
 
-(* non-vacuity: two files including each other, and a self-include: 3 reads, 2 reported repeats *)
+(* non-vacuity: two files including each other, and a self-include: 3 reads, 3 reported repeats (a is
+   named by itself and by b, b by a after the folder listing); the fuel given exceeds the bound of
+   C16_fs_terminates *)
 Example C16_example :
   let n (l : list N) : str := l in
   let a := n [97%N] in let b := n [98%N] in
@@ -83,5 +85,16 @@ Example C16_example :
   match fs_load x 50 (Some []) (fun _ => true) true false 100 [n [47%N]] with
   | Done v e => length v = 3 /\ length (filter (is_dup path fblock) e) = 3
   | _ => False
-  end.
-Proof. vm_compute. split; reflexivity. Qed.
+  end /\ fs_fuel_bound x (fun _ => true) true [n [47%N]] <= 100.
+Proof. vm_compute. split; [split; reflexivity|repeat constructor]. Qed.
+
+(* The file-system instance discharges the premises of C16_terminates: its universe is the finite
+   set of paths of the file system, so load_files terminates on every tree, with every include graph
+   and every set of symbolic links, within an explicit bound. *)
+Theorem C16_fs_terminates :
+  forall (x : xfs) (rfuel : nat) (root : option path) (matches : str -> bool) (allow_include raising : bool)
+         (fuel : nat) (roots : list str),
+    fs_fuel_bound x matches allow_include roots <= fuel ->
+    fs_load x rfuel root matches allow_include raising fuel roots <> OutOfFuel.
+Proof. exact fs_load_terminates. Qed.
+Print Assumptions C16_fs_terminates.
